@@ -243,12 +243,15 @@ class QuicSession:
             logging.warning(f"Could not decrypt Quic Packet: {quic_packet.dcid}")
 
     def packet_isserver(self, packet, dcid):
-        if dcid in self.server_cids:
+        # the addresses decide the direction if they are those of the session (connection IDs may be empty or shared)
+        if packet.ip_src == self.client_ip and packet.sport == self.client_port:
+            return False
+        elif packet.ip_src == self.server_ip and packet.sport == self.server_port:
+            return True
+        elif dcid in self.server_cids:
             return False
         elif dcid in self.client_cids:
             return True
-        elif packet.ip_src == self.client_ip and packet.sport == self.client_port:
-            return False
         else:
             return True
 
